@@ -273,3 +273,84 @@ def snapshot_all():
         for name, v in sorted(_candidates(o), key=lambda nv: nv[0]):
             parts.append((o.__name__, name, canon(v)))
     return parts
+
+
+# ---- per-class constants (opcode byte, parameter flag, special address bytes, frame size) ----------------------
+# Historically class attributes `_cmdval`, `_hasparam`, `_opcode`, `_addr`, `_instance`, `_event_info`,
+# `_framesize`.  They are read by name when present; when a maintainer renames them they are recovered by
+# PROBING the class: build one object with neutral arguments and read the constant off its frame.
+
+def _probe_obj(c, *argsets):
+    for args, kw in argsets:
+        try:
+            return c(*args, **kw)
+        except Exception:   # noqa
+            continue
+    return None
+
+
+def framesize_of(c):
+    v = getattr(c, "_framesize", None)
+    if _int(v):
+        return v
+    from dali import address as A
+    o = _probe_obj(c, ((A.GearBroadcast(),), {}), ((A.GearBroadcast(), 0), {}), ((A.DeviceBroadcast(),), {}),
+                   ((A.DeviceBroadcast(), A.InstanceNumber(0)), {}), ((), {}), ((0,), {}), ((0, 0), {}),
+                   ((), {"short_address": 0}))
+    return len(o.frame) if o is not None else 0
+
+
+def hasparam_of(c):
+    v = getattr(c, "_hasparam", None)
+    if isinstance(v, bool):
+        return v
+    from dali import address as A
+    from dali.gear import general as gg
+    if issubclass(c, gg._StandardCommand):
+        return _probe_obj(c, ((A.GearBroadcast(),), {})) is None and \
+            _probe_obj(c, ((A.GearBroadcast(), 0), {})) is not None
+    if issubclass(c, gg._SpecialCommand):
+        # the second byte carries a parameter iff two different arguments give two different second bytes
+        for a, b in ((((0,), {}), ((1,), {})), (((), {"address": 0}), ((), {"address": 1}))):
+            x, y = _probe_obj(c, a), _probe_obj(c, b)
+            if x is not None and y is not None:
+                return (x.frame.as_integer & 0xFF) != (y.frame.as_integer & 0xFF)
+        return False
+    return False
+
+
+def code_of(c):
+    """opcode byte of a standard gear / device / instance command, first byte of a special gear command,
+    event-information code of an event class"""
+    for attr in ("_cmdval", "_opcode", "_event_info"):
+        v = getattr(c, attr, None)
+        if _int(v):
+            return v
+    from dali import address as A
+    from dali.gear import general as gg
+    from dali.device import general as dg
+    if issubclass(c, gg._StandardCommand):
+        o = _probe_obj(c, ((A.GearBroadcast(),), {}), ((A.GearBroadcast(), 0), {}))
+        return (o.frame.as_integer & 0xFF) if o is not None else None
+    if issubclass(c, gg._SpecialCommand):
+        o = _probe_obj(c, ((), {}), ((0,), {}), (("MASK",), {}))
+        return (o.frame.as_integer >> 8) & 0xFF if o is not None else None
+    if issubclass(c, (dg._StandardDeviceCommand, dg._StandardInstanceCommand)):
+        o = _probe_obj(c, ((A.DeviceBroadcast(),), {}), ((A.DeviceBroadcast(), A.InstanceNumber(0)), {}))
+        return (o.frame.as_integer & 0xFF) if o is not None else None
+    if issubclass(c, dg._Event):
+        o = _probe_obj(c, ((), {"instance_group": 0}))
+        return (o.frame.as_integer & 0x3FF) if o is not None else None
+    return None
+
+
+def special_bytes_of(c):
+    """(address byte, instance byte) of a special device command"""
+    a, i = getattr(c, "_addr", None), getattr(c, "_instance", None)
+    if _int(a) and (_int(i) or i is None):
+        return a, i
+    o = _probe_obj(c, ((), {}), ((0,), {}), ((0, 0), {}))
+    if o is None:
+        return None, None
+    d = o.frame.as_integer
+    return (d >> 16) & 0xFF, (d >> 8) & 0xFF
